@@ -101,7 +101,7 @@ claims = {
    text=("Partial (ownership and pid writes; model G: directory creation under interference, where only a single mkdir is atomic): EnsureDirExists returns nil only if this very call created the directory (found and fixed: stat followed by MkdirAll told several concurrent creators that each had created the group); "
          "V2.New marks a handle as not-existing only if its own mkdir created the directory; V2.Destroy and V1.Destroy issue rmdir for the group's directories only through a handle that is not marked existing, and for every controller directory of such a handle; "
          "AddProcesses issues one write per pid carrying exactly that pid's decimal text; Existing() returns the flag."),
-   note=TRUST + "NOT decided: usage readers and their units (ns / bytes / count) on v1 and v2 - they parse file contents through bufio.Scanner/strings.Fields, which is string-content code outside the prover's reach and no bounded stand-in was built; limits written; newV1/newV2/V1.New builders and randomBuild; that writing a pid moves exactly that process is kernel behaviour. 'Distinct group nested under its parent even when created concurrently' is proved only as the mkdir-atomicity consequence above.",
+   note=TRUST + "Units table (which control file, which scaling) for v1 and v2: CPU time = usage_usec of cpu.stat x 1000 (v2) / cpuacct.usage (v1), memory = memory.current, memory.peak (v2) / memory.usage_in_bytes, memory.max_usage_in_bytes (v1), process count = pids.peak, limits go to memory.max / pids.max (v2) and memory.limit_in_bytes / pids.max (v1) with the given value - over abstract file contents (cgval) and a ghost record of the last number written; Random returns only a group it created (found and fixed: the retry on an existing group was unreachable). Two known findings: on v1 a limit call on a group whose controller was never set up returns nil without writing. NOT decided: the text parsing itself (Scanner/Fields/ParseUint are assumed), SetCPUBandwidth's formatted content, newV1/newV2/V1.New builders; that writing a pid moves exactly that process is kernel behaviour. 'Distinct group nested under its parent even when created concurrently' is proved only as the mkdir-atomicity consequence above.",
    design_ref="DESIGN.md §10.2"),
  "C18": dict(level="proof",
    text=("CheckRead/CheckWrite/CheckStat cascade (write => read => stat) and refusal => ban iff soft-ban covers else kill, over an abstract cover predicate; SyscallCounter.Check step contract; budget lemmas over histories; termination and memory safety of the matcher. "
